@@ -38,6 +38,10 @@ func c02Cases(tier string, seed uint64, flavor string) []lib.Case {
 			cases = append(cases, lib.Case{Seed: s.PairSeed, Kind: "inplace", Spec: lib.MustSpec(s)})
 		}
 	}
+	for k, o := range []lib.GenOpts{{EmptyOld: true, PathFocus: true}, {EmptyNew: true, PathFocus: true}, {EmptyOld: true, EmptyNew: true}} {
+		s := c02Spec{PairSeed: lib.Mix(seed, 2002, uint64(k)), Opts: o, Comp: lib.Comp{Algo: "none"}, Repeats: rep}
+		cases = append(cases, lib.Case{Seed: s.PairSeed, Kind: "empty-side", Spec: lib.MustSpec(s)})
+	}
 	// one deterministic case per kind-swap class (alone and combined with a rename source),
 	// so that every known finding of this class is observed on every run
 	for ks := 1; ks <= 7; ks++ {
